@@ -1420,8 +1420,8 @@ class Exec:
                     for k2, s2, p in self.block(n.body, s_in):
                         if k2 in ('normal', 'continue'):
                             self.oblige(s2, f'{tag}: invariant preserved', sp.inv(s2, self))
-                            if sp.variant is not None:
-                                pass
+                            if getattr(sp, 'on_backedge', None):
+                                sp.on_backedge(s2, self)
                         elif k2 == 'break':
                             outs.append(('normal', s2, None))
                         else:
@@ -1461,6 +1461,8 @@ class Exec:
                     h.assume(z3.Not(sp.first_cond(h, self)))
                 if not self.feasible(h):
                     continue
+                if sp.at_head:
+                    sp.at_head(h, self)
                 for kind, s1, x in src.pull(self, h, n):
                     if kind == 'stop':
                         if n.orelse:
@@ -1475,6 +1477,8 @@ class Exec:
                             for k2, s2, p in self.block(n.body, sa):
                                 if k2 in ('normal', 'continue'):
                                     self.oblige(s2, f'{tag}: invariant preserved', sp.inv(s2, self))
+                                    if getattr(sp, 'on_backedge', None):
+                                        sp.on_backedge(s2, self)
                                 elif k2 == 'break':
                                     if hasattr(src, 'on_break'):
                                         s2 = src.on_break(self, s2)
